@@ -22,9 +22,9 @@ CHECKS = {
     "C08": dict(
         engine="simsym", category="translation_validation", ref="DESIGN.md 2, 5 (C08)",
         technique="SMT-based translation validation (symbolic execution of emitted Simplicity, z3 QF_UFBV); fold functions as uninterpreted functions",
-        text="One fold per program; list bounds 2..256 (512 thorough), EVERY length, literal / witness / computed lists, element types u8,(u8,u8),Option<u8>,[u8;3]; "
+        text="One fold per program (plus 28 programs with several folds: one function at two bounds, the same bound twice, the folded function also called directly, a fold inside a function and in main, two functions); list bounds 2..256 (512 thorough), EVERY length, literal / witness / computed lists, element types u8,(u8,u8),Option<u8>,[u8;3]; "
              "fold functions both arbitrary (all jets uninterpreted: the verdict holds for every f) and concrete order-sensitive ones (replayable). The solver proves for all element values "
-             "and accumulators that the emitted DAG equals the left-to-right source-level fold including failure; for N<=32 (64 thorough) one query covers all lengths at once (symbolic block-presence bits, fold function arbitrary).",
+             "and accumulators that the emitted DAG equals the left-to-right source-level fold including failure; for N<=32 (64 thorough; the slowest fold functions only up to N=8 in quick) one query covers all lengths at once (symbolic block-presence bits, fold function arbitrary).",
         note=TRUST_E1),
     "C09": dict(
         engine="simsym", category="translation_validation", ref="DESIGN.md 2, 5 (C09)",
